@@ -146,6 +146,7 @@ func (b *Box) storeOrForward(msg *IncMessage) {
 
 	// The decision and the store are a single critical section: a message is either held before the topic starts
 	// (and then handed over by the Send that starts it), or it sees the topic started.
+	verifYield("decide")
 	b.lock.Lock()
 
 	if _, started := b.startedSending[string(msg.Topic)]; started {
@@ -296,6 +297,7 @@ func (b *Box) Send(msgType uint8, topic []byte, msg []byte, to ...UniversalID) {
 // the messages that arrived in the meantime, in their arrival order.
 func (b *Box) handOverHeldMessages(topic string) {
 	for {
+		verifYield("next")
 		b.lock.Lock()
 		queue := b.handOver[topic]
 		if len(queue) == 0 {
@@ -307,6 +309,7 @@ func (b *Box) handOverHeldMessages(topic string) {
 		b.handOver[topic] = queue[1:]
 		b.lock.Unlock()
 
+		verifYield("forward")
 		b.MessageHandler.HandleMessage(msg)
 	}
 }
